@@ -41,6 +41,9 @@ def strategy_(draw, thorough, row_level):
     if not cols:
         cols = None
     case["filters"] = draw(gfilters.program(cols, n)) if cols else {"flat": True, "groups": [[]]}
+    # which pair of Statistics fields carries the bounds: the deprecated min/max (what this writer fills in), the
+    # current min_value/max_value only (parquet-mr, arrow for strings), or both
+    case["stats_fields"] = draw(st.sampled_from(["as_written", "as_written", "as_written", "new_only", "both"]))
     if row_level:
         names = [c["name"] for c in fr["cols"]]
         case["columns"] = draw(st.one_of(st.none(), st.lists(st.sampled_from(names), unique=True, max_size=len(names))))
@@ -49,6 +52,21 @@ def strategy_(draw, thorough, row_level):
 
 class Prepared:
     pass
+
+
+def move_stats(pf, how):
+    """Present the bounds of every chunk in the Statistics fields another writer would have used (same values)."""
+    if how not in ("new_only", "both"):
+        return
+    for rg in pf.row_groups:
+        for col in rg.columns:
+            s = col.meta_data.statistics
+            if s is None:
+                continue
+            if s.min is not None or s.max is not None:
+                s.min_value, s.max_value = s.min, s.max
+                if how == "new_only":
+                    s.min, s.max = None, None
 
 
 def prepare(case, d):
@@ -66,6 +84,7 @@ def prepare(case, d):
     p = Prepared()
     try:
         p.pf = fastparquet.ParquetFile(path)
+        move_stats(p.pf, case.get("stats_fields"))
         p.full = p.pf.to_pandas()
         p.groups = [[int(x) for x in p.pf[i].to_pandas(columns=["_rid"])["_rid"].tolist()] for i in range(len(p.pf.row_groups))]
     except Exception as e:
